@@ -23,7 +23,7 @@ Print Assumptions C02_units_exact.
 (* PAT / PMT: the packet that completes the unit's sections flushes it at once *)
 Theorem C02_early_flush : forall pm pid q p, (Z.eqb pid C_PIDPAT || pm_mem pm pid) = true ->
   isSameAsPrevious q p = false ->
-  let q1 := if hasDiscontinuity q p then [] else q in
+  let q1 := if resets q p then [] else q in
   let q2 := if pusi p then [] else q1 in
   is_psi_complete (q2 ++ [p]) = true ->
   acc_add pm pid q p = ([], q2 ++ [p]).
